@@ -6,10 +6,11 @@ processes that interleave at atomic steps.  One step = at most one access to a s
 (`cache.workload`, `cache.certRoot`, `configTrustBundle`, `generateMutex`, the delayed queue) or
 one external call (the CA client, the secret handler).  Purely local computation is merged into
 the neighbouring step; two writes are merged only where the second one commutes with every step
-of every other process (`SetWorkload(&item)` + `PushDelayed` in registerSecret; the root comparison,
-`SetRoot`, `OnSecretUpdate(ROOTCA)` and, for ROOTCA, the read of `configTrustBundle` for the merge:
-every access to `certRoot` on the CA path is protected by `generateMutex`, so that block commutes
-with the steps of all other processes).  `SetWorkload(nil)` and the following `OnSecretUpdate(default)`
+of every other process (the root comparison with `SetRoot`, and `OnSecretUpdate(ROOTCA)` with, for ROOTCA, the read of
+`configTrustBundle` for the merge: every access to `certRoot` on the CA path is protected by
+`generateMutex`).  Pairs of writes whose ORDER matters to a subscriber are separate steps:
+`SetWorkload(&item)` then `PushDelayed` (a zero-delay task must find its certificate cached),
+`SetRoot` then `OnSecretUpdate(ROOTCA)`, store `configTrustBundle` then `OnSecretUpdate(ROOTCA)`.  `SetWorkload(nil)` and the following `OnSecretUpdate(default)`
 are two steps: their order is part of the property (the callback must find the cache empty).
 
 Abstractions: PEM root certificates are `Nat` ids (a bundle = list of ids in byte order, compared
@@ -57,7 +58,7 @@ structure Ret where
     was empty at the instant of the callback: a subscriber that re-requests from inside the callback
     gets a new certificate only then (otherwise it hits the old one and nobody renews it). -/
 inductive Ev
-  | rootca
+  | rootca (updated : Bool)      -- the announced value (configTrustBundle / certRoot) is already stored at the callback
   | workload (cacheEmpty : Bool)
   deriving DecidableEq, Repr
 
@@ -68,6 +69,8 @@ structure Entry where
   pushedAt   : Int        -- `now` of PushDelayed: runAt = pushedAt + delay
   expire     : Int        -- ghost: ExpireTime of the item
   computedAt : Int        -- ghost: `now` read by rotateTime
+  key        : Nat := 0   -- ghost: key id of the item the task was scheduled for
+  cachedAtPush : Bool := true -- ghost: the workload cache was non-empty when PushDelayed ran
   fired      : Bool := false
   deriving DecidableEq, Repr
 
@@ -85,6 +88,7 @@ structure State where
   clears       : Nat := 0         -- number of SetWorkload(nil) executed
   okSinceClear : Nat := 0         -- successful CA calls since the last SetWorkload(nil)
   stores       : Nat := 0         -- number of SetWorkload(&item) executed
+  cfgWrites    : Nat := 0         -- number of stores to configTrustBundle
 
 /-! ### mergeTrustAnchorBytes: set union, sorted, de-duplicated -/
 
@@ -106,8 +110,10 @@ inductive Proc
   | gLock (res : Res)                       -- generateMutex.Lock()
   | gCallCA (res : Res)                     -- generateNewSecret
   | gRegCheck (res : Res) (it : Item)       -- registerSecret: rotateTime, `if GetWorkload() != nil return`
-  | gRegStore (res : Res) (it : Item) (delay : Int) (cat : Int) -- SetWorkload(&item); PushDelayed
-  | gAfterReg (res : Res) (it : Item)       -- root comparison + SetRoot + OnSecretUpdate(ROOTCA) | merge for ROOTCA
+  | gRegStore (res : Res) (it : Item) (delay : Int) (cat : Int) -- SetWorkload(&item)
+  | gRegPush (res : Res) (it : Item) (delay : Int) (cat : Int) (mark : Nat) -- PushDelayed; mark = ghost: `clears` when it stored
+  | gAfterReg (res : Res) (it : Item)       -- root comparison + SetRoot (no change: merge for ROOTCA, done)
+  | gNotifyRoot (res : Res) (it : Item)     -- OnSecretUpdate(ROOTCA) | merge for ROOTCA
   | gUnlock (ret : Ret)                     -- deferred generateMutex.Unlock()
   | gDone (ret : Ret)
   -- rotation callback of queue entry `e`
@@ -116,7 +122,8 @@ inductive Proc
   | tNotify (e : Nat) (mark : Nat)          -- OnSecretUpdate(default); mark = ghost: `stores` when it cleared
   | tDone (e : Nat) (cleared : Bool)
   -- UpdateConfigTrustBundle(b)
-  | uSet (b : List Nat)                     -- compare, store, OnSecretUpdate(ROOTCA)
+  | uSet (b : List Nat)                     -- compare, store configTrustBundle
+  | uNotifyRoot (b : List Nat) (mark : Nat) -- OnSecretUpdate(ROOTCA); mark = ghost: `cfgWrites` after its store
   | uClear                                  -- SetWorkload(nil)
   | uNotify (mark : Nat)                    -- OnSecretUpdate(default)
   | uDone (changed : Bool)
@@ -162,7 +169,7 @@ def newItem (s : State) (now ttl : Int) (signer : Nat) (bundle : List Nat) : Ite
     for both resources (before it, only for `default`, see `afterRegStateUnfixed`). -/
 def afterRegState (s : State) (it : Item) : State :=
   if s.certRoot = it.root then s
-  else { s with certRoot := it.root, events := s.events ++ [Ev.rootca] }
+  else { s with certRoot := it.root, events := s.events ++ [Ev.rootca true] }
 
 /-- ... and the value returned to the caller (`ROOTCA`: the root merged with the configured anchors). -/
 def afterRegRet (s : State) (res : Res) (it : Item) : Ret :=
@@ -177,6 +184,11 @@ def afterRegStateUnfixed (s : State) (res : Res) (it : Item) : State :=
   match res with
   | .root => s
   | .workload => afterRegState s it
+
+/-- `sc.queue.PushDelayed(task, delay)`: the task records whether its certificate was cached at that instant. -/
+def pushState (s : State) (it : Item) (delay at_ now : Int) : State :=
+  { s with queue := s.queue ++ [{ created := it.created, delay := delay, pushedAt := now, expire := it.expire,
+                                   computedAt := at_, key := it.key, cachedAtPush := s.workload.isSome }] }
 
 /-- One atomic step of process `p` with environment input `i`. -/
 def step (y : Sys) (p : Nat) (i : Input) : Sys :=
@@ -209,12 +221,16 @@ def step (y : Sys) (p : Nat) (i : Input) : Sys :=
       let delay := rotateDelay it.created it.expire i.now y.st.ratio i.jit
       { y with procs := upd y.procs p (.gRegStore res it delay i.now) }
   | .gRegStore res it delay at_ =>
-    { y with st := { y.st with workload := some it, stores := y.st.stores + 1,
-                               queue := y.st.queue ++ [{ created := it.created, delay := delay, pushedAt := i.now,
-                                                         expire := it.expire, computedAt := at_ }] },
-             procs := upd y.procs p (.gAfterReg res it) }
+    { y with st := { y.st with workload := some it, stores := y.st.stores + 1 },
+             procs := upd y.procs p (.gRegPush res it delay at_ y.st.clears) }
+  | .gRegPush res it delay at_ _ =>
+    { y with st := pushState y.st it delay at_ i.now, procs := upd y.procs p (.gAfterReg res it) }
   | .gAfterReg res it =>
-    { y with st := afterRegState y.st it, procs := upd y.procs p (.gUnlock (afterRegRet y.st res it)) }
+    if y.st.certRoot = it.root then { y with procs := upd y.procs p (.gUnlock (afterRegRet y.st res it)) }
+    else { y with st := { y.st with certRoot := it.root }, procs := upd y.procs p (.gNotifyRoot res it) }
+  | .gNotifyRoot res it =>
+    { y with st := { y.st with events := y.st.events ++ [Ev.rootca (decide (y.st.certRoot = it.root))] },
+             procs := upd y.procs p (.gUnlock (afterRegRet y.st res it)) }
   | .gUnlock ret =>
     { y with st := { y.st with mutex := none }, procs := upd y.procs p (.gDone ret),
              doneAt := upd y.doneAt p y.st.clears }
@@ -230,7 +246,10 @@ def step (y : Sys) (p : Nat) (i : Input) : Sys :=
   | .tDone _ _ => y
   | .uSet b =>
     if y.st.cfg = b then { y with procs := upd y.procs p (.uDone false) }
-    else { y with st := { y.st with cfg := b, events := y.st.events ++ [Ev.rootca] }, procs := upd y.procs p .uClear }
+    else { y with st := { y.st with cfg := b, cfgWrites := y.st.cfgWrites + 1 },
+                  procs := upd y.procs p (.uNotifyRoot b (y.st.cfgWrites + 1)) }
+  | .uNotifyRoot b _ =>
+    { y with st := { y.st with events := y.st.events ++ [Ev.rootca (decide (y.st.cfg = b))] }, procs := upd y.procs p .uClear }
   | .uClear => { y with st := clearWorkload y.st, procs := upd y.procs p (.uNotify y.st.stores) }
   | .uNotify _ => { y with st := notifyWorkload y.st, procs := upd y.procs p (.uDone true) }
   | .uDone _ => y
@@ -271,9 +290,9 @@ def stepN : Nat → Sys → Nat → Input → Sys
   | 0, y, _, _ => y
   | n + 1, y, p, i => stepN n (step y p i) p i
 
-/-- Run process `p` alone until it is finished (no process needs more than 8 steps): this is what a
+/-- Run process `p` alone until it is finished (no process needs more than 12 steps): this is what a
     sequential caller observes, and what the `cache` stream compares with the real code. -/
-def runAlone (y : Sys) (p : Nat) (i : Input) : Sys := stepN 8 y p i
+def runAlone (y : Sys) (p : Nat) (i : Input) : Sys := stepN 12 y p i
 
 /-- A whole sequential operation in slot `p`. -/
 def seqOp (y : Sys) (p : Nat) (k : Kind) (i : Input) : Sys := runAlone (spawn y p k) p i
